@@ -355,10 +355,19 @@ class Check:
         e["UBSAN_OPTIONS"] = "print_stacktrace=1:halt_on_error=1:exitcode=98"
         if env:
             e.update(env)
-        try:
-            r = _run([binary], inp="\n".join(script_lines) + "\n", timeout=timeout, env=e)
-        except subprocess.TimeoutExpired:
-            return None, "timeout", ""
+        # A harness links the shared libompl of the build cache. If /repo changes while a check is running, another
+        # check's ensure_built() re-links that library in place and for some seconds the dynamic loader refuses it
+        # ("file too short", "cannot open shared object"): that is the infrastructure, not the code under test, so
+        # wait and run the same input again (a reproducible failure still comes back).
+        for attempt in range(6):
+            try:
+                r = _run([binary], inp="\n".join(script_lines) + "\n", timeout=timeout, env=e)
+            except subprocess.TimeoutExpired:
+                return None, "timeout", ""
+            if r.returncode == 127 and "error while loading shared libraries" in (r.stderr or ""):
+                time.sleep(20 * (attempt + 1))
+                continue
+            break
         return r.stdout.splitlines(), r.returncode, r.stderr
 
     def run_pair(self, harness_bin, driver_name, script_lines, timeout=600):
